@@ -128,4 +128,218 @@ theorem showD_list (hpct : '%' ∉ cfg.conv) (hd : '$' ∈ cfg.conv) (hf : firin
   simp only [showD, andThen, print_ptr cfg prim _ hpct hfp _ pre post h1, print_lit cfg prim _ hpct _ h3,
     showItems_eq cfg prim _ hpct hd hf _ h2]
 
+/-! ### Table, Tree, Range, Slice, Box, NULL, objects without a Show instance -/
+
+/-- one dispatch `if` fires for `c`: the dispatch is that action -/
+theorem dispatch_single (c : Char) (k : Kind) (hf : firing cfg c = [k]) (buf : Str) (a : Obj) (o : Out) :
+    dispatch prim shw cfg.disp c buf a o = action prim shw k buf a o := by
+  rw [dispatch_eq_runKinds]
+  change runKinds prim shw (firing cfg c) buf a o = _
+  rw [hf, runKinds_single]
+
+/-- a format `%$ mid %$` with (key, value): the key's show, the literal, the value's show -/
+theorem print_pair (hpct : '%' ∉ cfg.conv) (hf : firing cfg '$' = [.show]) (f mid : Str)
+    (hp : parseFmt cfg.conv f = some [.spec [] '$', .lit mid, .spec [] '$']) (k v : Obj) (o : Out) :
+    (printToWith cfg prim shw f [k, v] o).pair =
+      andThen (shw k) (andThen (fun o => o.call prim mid .none) (shw v)) o := by
+  obtain ⟨hr, hwf, _⟩ := parse_sound cfg.conv _ _ _ hp
+  rw [← hr, printToWith_pair cfg prim shw [k, v] hpct _ hwf o]
+  simp only [refRun, List.getElem?_cons_zero, List.getElem?_cons_succ, List.nil_append, dispatch_single cfg prim shw '$' .show hf,
+    action, andThen]
+  rcases shw k o with ⟨o1, oc1⟩
+  cases oc1 <;> simp only []
+  rcases o1.call prim mid .none with ⟨o2, oc2⟩
+  cases oc2 <;> simp only []
+  rcases shw v o2 with ⟨o3, oc3⟩
+  cases oc3 <;> rfl
+
+/-- a format that is one integer specification, with an Int: one call with its value -/
+theorem print_int (hpct : '%' ∉ cfg.conv) (b : Str) (c : Char) (hf : firing cfg c = [.cint]) (f : Str)
+    (hp : parseFmt cfg.conv f = some [.spec b c]) (n : Int) (o : Out) :
+    (printToWith cfg prim shw f [.int n] o).pair = o.call prim f (.i64 n) := by
+  obtain ⟨hr, hwf, _⟩ := parse_sound cfg.conv _ _ _ hp
+  have hr' : render [Seg.spec b c] = '%' :: (b ++ [c]) := by simp [render, Seg.text]
+  rw [← hr, printToWith_pair cfg prim shw [.int n] hpct _ hwf o]
+  simp only [refRun, List.getElem?_cons_zero, dispatch_single cfg prim shw c .cint hf, action, cInt]
+  rw [hr']
+  rcases o.call prim ('%' :: (b ++ [c])) (.i64 n) with ⟨o1, oc1⟩
+  cases oc1 <;> rfl
+
+/-- `<'Box' at 0x%p (%$)>` with (self, Box_Deref(self)) -/
+theorem print_box (hpct : '%' ∉ cfg.conv) (hf : firing cfg '$' = [.show]) (hfp : firing cfg 'p' = [.obj]) (f l1 l2 l3 : Str)
+    (hp : parseFmt cfg.conv f = some [.lit l1, .spec [] 'p', .lit l2, .spec [] '$', .lit l3]) (a x : Obj) (o : Out) :
+    (printToWith cfg prim shw f [a, x] o).pair =
+      andThen (fun o => o.call prim l1 .none) (andThen (fun o => o.call prim ['%', 'p'] .ptr)
+        (andThen (fun o => o.call prim l2 .none) (andThen (shw x) (fun o => o.call prim l3 .none)))) o := by
+  obtain ⟨hr, hwf, _⟩ := parse_sound cfg.conv _ _ _ hp
+  rw [← hr, printToWith_pair cfg prim shw [a, x] hpct _ hwf o]
+  simp only [refRun, List.getElem?_cons_zero, List.getElem?_cons_succ, List.nil_append, dispatch_single cfg prim shw '$' .show hf,
+    dispatch_single cfg prim shw 'p' .obj hfp, action, andThen]
+  rcases o.call prim l1 .none with ⟨o1, oc1⟩
+  cases oc1 <;> simp only []
+  rcases o1.call prim ['%', 'p'] .ptr with ⟨o2, oc2⟩
+  cases oc2 <;> simp only []
+  rcases o2.call prim l2 .none with ⟨o3, oc3⟩
+  cases oc3 <;> simp only []
+  rcases shw x o3 with ⟨o4, oc4⟩
+  cases oc4 <;> simp only []
+  rcases o4.call prim l3 .none with ⟨o5, oc5⟩
+  cases oc5 <;> rfl
+
+/-- `<'%s' At 0x%p>` with (type_of(self), self): the type's name through `c_str`, the pointer -/
+theorem print_default (hpct : '%' ∉ cfg.conv) (hfs : firing cfg 's' = [.cstr]) (hfp : firing cfg 'p' = [.obj]) (f l1 l2 l3 : Str)
+    (hp : parseFmt cfg.conv f = some [.lit l1, .spec [] 's', .lit l2, .spec [] 'p', .lit l3]) (t : Str) (a : Obj) (o : Out) :
+    (printToWith cfg prim shw f [.type t, a] o).pair =
+      andThen (fun o => o.call prim l1 .none) (andThen (fun o => o.call prim ['%', 's'] (.cstr t))
+        (andThen (fun o => o.call prim l2 .none) (andThen (fun o => o.call prim ['%', 'p'] .ptr)
+          (fun o => o.call prim l3 .none)))) o := by
+  obtain ⟨hr, hwf, _⟩ := parse_sound cfg.conv _ _ _ hp
+  rw [← hr, printToWith_pair cfg prim shw [.type t, a] hpct _ hwf o]
+  simp only [refRun, List.getElem?_cons_zero, List.getElem?_cons_succ, List.nil_append, dispatch_single cfg prim shw 's' .cstr hfs,
+    dispatch_single cfg prim shw 'p' .obj hfp, action, cStr, andThen]
+  rcases o.call prim l1 .none with ⟨o1, oc1⟩
+  cases oc1 <;> simp only []
+  rcases o1.call prim ['%', 's'] (.cstr t) with ⟨o2, oc2⟩
+  cases oc2 <;> simp only []
+  rcases o2.call prim l2 .none with ⟨o3, oc3⟩
+  cases oc3 <;> simp only []
+  rcases o3.call prim ['%', 'p'] .ptr with ⟨o4, oc4⟩
+  cases oc4 <;> simp only []
+  rcases o4.call prim l3 .none with ⟨o5, oc5⟩
+  cases oc5 <;> rfl
+
+/-- what Table_Show / Tree_Show do with the pairs: key show, `mid`, value show; the separator between two pairs -/
+def showPairsSpec (mid sep : Str) : List (Obj × Obj) → Out → Out × Outcome
+  | [], o => (o, .ok)
+  | [(k, v)], o => andThen (shw k) (andThen (fun o => o.call prim mid .none) (shw v)) o
+  | (k, v) :: q :: r, o =>
+    andThen (andThen (shw k) (andThen (fun o => o.call prim mid .none) (shw v)))
+      (andThen (fun o => o.call prim sep .none) (showPairsSpec mid sep (q :: r))) o
+
+theorem showPairs_eq (hpct : '%' ∉ cfg.conv) (hf : firing cfg '$' = [.show]) (pair mid sep : Str)
+    (hp : parseFmt cfg.conv pair = some [.spec [] '$', .lit mid, .spec [] '$']) (hsep : isLitFmt sep = true) :
+    ∀ (ps : List (Obj × Obj)) (o : Out),
+      showPairs cfg prim shw pair sep ps o = showPairsSpec prim shw mid sep ps o := by
+  intro ps
+  induction ps with
+  | nil => intro o; rfl
+  | cons p r ih =>
+    intro o
+    obtain ⟨k, v⟩ := p
+    cases r with
+    | nil => simp [showPairs, showPairsSpec, print_pair cfg prim shw hpct hf pair mid hp]
+    | cons q r =>
+      obtain ⟨k', v'⟩ := q
+      simp only [showPairs, showPairsSpec]
+      have h1 : (fun o => (printToWith cfg prim shw pair [k, v] o).pair) =
+          andThen (shw k) (andThen (fun o => o.call prim mid .none) (shw v)) := by
+        funext o; exact print_pair cfg prim shw hpct hf pair mid hp k v o
+      have h2 : (fun o => (printToWith cfg prim shw sep [] o).pair) = fun o => o.call prim sep .none := by
+        funext o; exact print_lit cfg prim shw hpct sep hsep [] o
+      have h3 : showPairs cfg prim shw pair sep ((k', v') :: r) = showPairsSpec prim shw mid sep ((k', v') :: r) := by
+        funext o; exact ih o
+      rw [h1, h2, h3]
+
+/-- what Range_Show does with the values: one call `frag` per value, the separator between two -/
+def showIntsSpec (frag sep : Str) : List Int → Out → Out × Outcome
+  | [], o => (o, .ok)
+  | [n], o => o.call prim frag (.i64 n)
+  | n :: m :: r, o =>
+    andThen (fun o => o.call prim frag (.i64 n)) (andThen (fun o => o.call prim sep .none) (showIntsSpec frag sep (m :: r))) o
+
+theorem showInts_eq (hpct : '%' ∉ cfg.conv) (b : Str) (c : Char) (hf : firing cfg c = [.cint]) (item sep : Str)
+    (hp : parseFmt cfg.conv item = some [.spec b c]) (hsep : isLitFmt sep = true) :
+    ∀ (ns : List Int) (o : Out), showInts cfg prim shw item sep ns o = showIntsSpec prim item sep ns o := by
+  intro ns
+  induction ns with
+  | nil => intro o; rfl
+  | cons n r ih =>
+    intro o
+    cases r with
+    | nil => simp [showInts, showIntsSpec, print_int cfg prim shw hpct b c hf item hp]
+    | cons m r =>
+      simp only [showInts, showIntsSpec]
+      have h1 : (fun o => (printToWith cfg prim shw item [.int n] o).pair) = fun o => o.call prim item (.i64 n) := by
+        funext o; exact print_int cfg prim shw hpct b c hf item hp n o
+      have h2 : (fun o => (printToWith cfg prim shw sep [] o).pair) = fun o => o.call prim sep .none := by
+        funext o; exact print_lit cfg prim shw hpct sep hsep [] o
+      have h3 : showInts cfg prim shw item sep (m :: r) = showIntsSpec prim item sep (m :: r) := by
+        funext o; exact ih o
+      rw [h1, h2, h3]
+
+/-- the opening `pre %p post` of a container's show, as calls -/
+def addrCalls (pre post : Str) : Out → Out × Outcome :=
+  andThen (fun o => o.call prim pre .none) (andThen (fun o => o.call prim ['%', 'p'] .ptr) (fun o => o.call prim post .none))
+
+theorem print_ptr' (hpct : '%' ∉ cfg.conv) (hf : firing cfg 'p' = [.obj]) (f pre post : Str)
+    (hp : parseFmt cfg.conv f = some [.lit pre, .spec [] 'p', .lit post]) (a : Obj) :
+    (fun o => (printToWith cfg prim shw f [a] o).pair) = addrCalls prim pre post := by
+  funext o; exact print_ptr cfg prim shw hpct hf f pre post hp a o
+
+/-- **Table_Show / Tree_Show**: `<'Table' At 0x` pointer ` {` pairs `}>` -/
+theorem showD_table (hpct : '%' ∉ cfg.conv) (hf : firing cfg '$' = [.show]) (hfp : firing cfg 'p' = [.obj])
+    (pre post mid : Str) (h1 : parseFmt cfg.conv sc.tblOpen = some [.lit pre, .spec [] 'p', .lit post])
+    (h2 : parseFmt cfg.conv sc.tblPair = some [.spec [] '$', .lit mid, .spec [] '$'])
+    (h3 : isLitFmt sc.tblSep = true) (h4 : isLitFmt sc.tblClose = true) (d : Nat) (ps : List (Obj × Obj)) (o : Out) :
+    showD cfg prim sc (d + 1) (.table ps) o =
+      andThen (addrCalls prim pre post)
+        (andThen (showPairsSpec prim (fun x o => showD cfg prim sc d x o) mid sc.tblSep ps)
+          (fun o => o.call prim sc.tblClose .none)) o := by
+  have e1 := print_ptr' cfg prim (fun x o => showD cfg prim sc d x o) hpct hfp _ pre post h1 (.table ps)
+  have e2 : showPairs cfg prim (fun x o => showD cfg prim sc d x o) sc.tblPair sc.tblSep ps = _ :=
+    funext (showPairs_eq cfg prim _ hpct hf _ mid _ h2 h3 ps)
+  have e3 : (fun o => (printToWith cfg prim (fun x o => showD cfg prim sc d x o) sc.tblClose [] o).pair) = _ :=
+    funext (print_lit cfg prim _ hpct _ h4 [])
+  simp only [showD]
+  rw [e1, e2, e3]
+
+theorem showD_tree (hpct : '%' ∉ cfg.conv) (hf : firing cfg '$' = [.show]) (hfp : firing cfg 'p' = [.obj])
+    (pre post mid : Str) (h1 : parseFmt cfg.conv sc.treOpen = some [.lit pre, .spec [] 'p', .lit post])
+    (h2 : parseFmt cfg.conv sc.trePair = some [.spec [] '$', .lit mid, .spec [] '$'])
+    (h3 : isLitFmt sc.treSep = true) (h4 : isLitFmt sc.treClose = true) (d : Nat) (ps : List (Obj × Obj)) (o : Out) :
+    showD cfg prim sc (d + 1) (.tree ps) o =
+      andThen (addrCalls prim pre post)
+        (andThen (showPairsSpec prim (fun x o => showD cfg prim sc d x o) mid sc.treSep ps)
+          (fun o => o.call prim sc.treClose .none)) o := by
+  have e1 := print_ptr' cfg prim (fun x o => showD cfg prim sc d x o) hpct hfp _ pre post h1 (.tree ps)
+  have e2 : showPairs cfg prim (fun x o => showD cfg prim sc d x o) sc.trePair sc.treSep ps = _ :=
+    funext (showPairs_eq cfg prim _ hpct hf _ mid _ h2 h3 ps)
+  have e3 : (fun o => (printToWith cfg prim (fun x o => showD cfg prim sc d x o) sc.treClose [] o).pair) = _ :=
+    funext (print_lit cfg prim _ hpct _ h4 [])
+  simp only [showD]
+  rw [e1, e2, e3]
+
+/-- **Range_Show**: `<'Range' At 0x` pointer ` [` values `]>`, each value one `%i` call -/
+theorem showD_range (hpct : '%' ∉ cfg.conv) (hfp : firing cfg 'p' = [.obj]) (b : Str) (c : Char) (hfc : firing cfg c = [.cint])
+    (pre post : Str) (h1 : parseFmt cfg.conv sc.rngOpen = some [.lit pre, .spec [] 'p', .lit post])
+    (h2 : parseFmt cfg.conv sc.rngItem = some [.spec b c])
+    (h3 : isLitFmt sc.rngSep = true) (h4 : isLitFmt sc.rngClose = true) (d : Nat) (ns : List Int) (o : Out) :
+    showD cfg prim sc (d + 1) (.range ns) o =
+      andThen (addrCalls prim pre post)
+        (andThen (showIntsSpec prim sc.rngItem sc.rngSep ns) (fun o => o.call prim sc.rngClose .none)) o := by
+  have e1 := print_ptr' cfg prim (fun x o => showD cfg prim sc d x o) hpct hfp _ pre post h1 (.range ns)
+  have e2 : showInts cfg prim (fun x o => showD cfg prim sc d x o) sc.rngItem sc.rngSep ns = _ :=
+    funext (showInts_eq cfg prim _ hpct b c hfc _ _ h2 h3 ns)
+  have e3 : (fun o => (printToWith cfg prim (fun x o => showD cfg prim sc d x o) sc.rngClose [] o).pair) = _ :=
+    funext (print_lit cfg prim _ hpct _ h4 [])
+  simp only [showD]
+  rw [e1, e2, e3]
+
+/-- **Slice_Show**: `<'Slice' At 0x` pointer ` [` items `]>` -/
+theorem showD_slice (hpct : '%' ∉ cfg.conv) (hd : '$' ∈ cfg.conv) (hf : firing cfg '$' = [.show]) (hfp : firing cfg 'p' = [.obj])
+    (pre post : Str) (h1 : parseFmt cfg.conv sc.slcOpen = some [.lit pre, .spec [] 'p', .lit post])
+    (h2 : isLitFmt sc.slcSep = true) (h3 : isLitFmt sc.slcClose = true)
+    (d : Nat) (items : List Obj) (o : Out) :
+    showD cfg prim sc (d + 1) (.slice items) o =
+      andThen (addrCalls prim pre post)
+        (andThen (showItemsSpec prim (fun x o => showD cfg prim sc d x o) sc.slcSep items)
+          (fun o => o.call prim sc.slcClose .none)) o := by
+  have e1 := print_ptr' cfg prim (fun x o => showD cfg prim sc d x o) hpct hfp _ pre post h1 (.slice items)
+  have e2 : showItems cfg prim (fun x o => showD cfg prim sc d x o) sc.slcSep items = _ :=
+    funext (showItems_eq cfg prim _ hpct hd hf _ h2 items)
+  have e3 : (fun o => (printToWith cfg prim (fun x o => showD cfg prim sc d x o) sc.slcClose [] o).pair) = _ :=
+    funext (print_lit cfg prim _ hpct _ h3 [])
+  simp only [showD]
+  rw [e1, e2, e3]
+
 end Cello.Fmt
